@@ -93,3 +93,53 @@ Proof.
     exists true, s1, s2. split; [reflexivity|]. split; [reflexivity|]. intros _. split; congruence.
 Qed.
 Print Assumptions generated_parsers_agree.
+
+(** * The -noast parser
+
+    The same for the file generated with -noast (no tokens, no memo table; actions run inline): under either -inline
+    setting and with or without -switch the call Parse() makes terminates, is deterministic, and returns the verdict and
+    the offset of the PEG semantics of the grammar as written. *)
+Lemma noast_slot_start g inline : o_inline (mk_opts false false inline g) 0 = false.
+Proof. unfold mk_opts. cbn [o_inline]. apply inline_table_0. Qed.
+
+Theorem generated_noast_parser_correct g tab rank :
+  wf_b g tab rank = true -> good_grammar g ->
+  (forall r b, nth_error g r = Some (RBody b) -> ranges_ok b = true) ->
+  grammar_alt2 g -> closed_names g ->
+  forall ptx buf penv, good_buf buf -> valid_buf buf ->
+  forall inline sw rb st0,
+    (forall rb0, nth_error (tree_of sw g) ptx = Some rb0 -> rb0 = RNil) ->
+    nth_error g 0 = Some rb -> rb <> RNil ->
+    exists n res evs st',
+      peg_parse g ptx buf penv n 0 = Some (res, evs) /\
+      xcall buf penv (mk_opts false false inline (tree_of sw g)) (gen_fn_noast (tree_of sw g) ptx inline) 0 (reset st0)
+            (Ret (match res with Fail => false | Succ _ _ => true end) st') /\
+      (forall out, xcall buf penv (mk_opts false false inline (tree_of sw g)) (gen_fn_noast (tree_of sw g) ptx inline) 0 (reset st0) out ->
+                   out = Ret (match res with Fail => false | Succ _ _ => true end) st') /\
+      match res with Succ p _ => pos st' = p /\ p <= length buf | Fail => True end.
+Proof.
+  intros Hwf Hg Hro Ha Hc ptx buf penv Hbuf Hvalid inline sw rb st0 Hptx Hr Hn.
+  assert (Hne : g <> []) by (intros E; rewrite E in Hr; discriminate).
+  assert (K : exists g' n res evs evs', g' = tree_of sw g /\ good_grammar g' /\ good_switches g' /\ deep_table_b g' inline = true /\ g' <> [] /\
+                peg_parse g ptx buf penv (S n) 0 = Some (res, evs) /\ peg_parse g' ptx buf penv (S n) 0 = Some (res, evs')).
+  { destruct sw; cbn [tree_of].
+    - assert (Hne' : optimize g <> []).
+      { intros E. apply Hne. apply length_zero_iff_nil. rewrite <- optimize_length, E. reflexivity. }
+      destruct (fs_table g) as [T st] eqn:E. destruct st.
+      + destruct (common_result g tab rank Hwf (stable_opt_ok g Hro T E) ptx buf penv Hvalid 0 rb Hr Hn) as (n & res & evs & evs' & H & H').
+        destruct n as [|n]; [discriminate|].
+        exists (optimize g), n, res, evs, evs'. split; [reflexivity|]. split; [exact (optimize_good_grammar g tab rank Hwf Hg Hro)|].
+        split; [exact (optimize_good_switches g tab rank Hwf Hro)|]. split; [exact (deep_table_optimize g inline Ha Hc)|]. auto.
+      + destruct (c01_total g ptx buf penv tab rank 0 rb Hwf Hr Hn) as (n & [res evs] & H). destruct n as [|n]; [discriminate|].
+        exists (optimize g), n, res, evs, evs. rewrite (optimize_unstable g T E). split; [reflexivity|]. split; [exact Hg|].
+        split; [exact (plain_good_switches g Hro)|]. split; [exact (deep_table_all g inline Ha Hc)|]. auto.
+    - destruct (c01_total g ptx buf penv tab rank 0 rb Hwf Hr Hn) as (n & [res evs] & H). destruct n as [|n]; [discriminate|].
+      exists g, n, res, evs, evs. split; [reflexivity|]. split; [exact Hg|].
+      split; [exact (plain_good_switches g Hro)|]. split; [exact (deep_table_all g inline Ha Hc)|]. auto. }
+  destruct K as (g' & n & res & evs & evs' & Eg & Hg' & Hs' & Hd & Hne' & H & H'). rewrite <- Eg in *.
+  destruct (generated_code_noast g' ptx buf penv Hg' Hbuf Hs' inline n 0 st0 _ Hptx Hd (noast_slot_start g' inline) (reached_start g' Hne') H')
+    as (st' & Hx & _ & P). cbn [fst] in *.
+  exists (S n), res, evs, st'. split; [exact H|]. split; [exact Hx|]. split; [|exact P].
+  intros out Hx'. exact (xcall_det _ _ _ _ _ _ _ _ Hx' Hx).
+Qed.
+Print Assumptions generated_noast_parser_correct.
